@@ -89,7 +89,9 @@ def instrument(Model):
 def one_model(ctx, prog, script, rng):
     import fsic
     try:
-        Model = fsic.build_model(fsic.parse_model(script))
+        typed = rng.random() < 0.6      # both class templates (with / without type hints) are the same model
+        Model = fsic.build_model(fsic.parse_model(script), with_type_hints=typed)
+        ctx.seen('templates', 'typed' if typed else 'untyped')
     except Exception:
         ctx.count('program_rejected')
         return
